@@ -15,7 +15,7 @@ import random
 from .core import Result, Violation, HarnessError, EventLog, bump, rng_for, sha_bytes
 
 PROP = 'C09'
-TIMEOUT = 120
+TIMEOUT = 400
 HANG_IS_VIOLATION = True
 BATCHES = {
     'quick': [('S', 16000), ('SL', 3000), ('P', 4000), ('R', 10)],
